@@ -156,6 +156,9 @@ class CostSpec(cost_spec.CostSpec):
             else:  # Amount - Currency -> Number
                 self.raw_number_comp = copy.deepcopy(amount.raw_number)
                 self.raw_amount_comp = None
+        elif (number := self.raw_number_comp) and value:  # Number + Currency -> Amount
+            self.raw_amount_comp = Amount.from_children(copy.deepcopy(number), value)
+            self.raw_number_comp = None
         else:  # Currency
             self.raw_currency_comp = value
 
